@@ -27,6 +27,43 @@ def run_both_traced(lines, root, timeout=1800):
     return impl, model, died
 
 
+class Pair:
+    """the real store and the model, live: merge requests to the model get the iteration order the real merge just used"""
+    def __init__(self, root):
+        shutil.rmtree(root, ignore_errors=True)
+        self.root = root
+        self.h = harness_session(["store", "--root", root, "--hang-ms", "30000"], preload=True)
+        self.m = driver_session()
+        self.lines, self.impl, self.model = [], [], []
+        self.died = None
+
+    def ask_many(self, lines):
+        """returns (impl answers, model answers); on harness death self.died is set and answers are short"""
+        n0 = len(self.h.answers)
+        try:
+            a = self.h.ask_many(lines)
+        except Died as d:
+            self.died = d
+            a = self.h.answers[n0:]
+        ml = []
+        for i, l in enumerate(lines):
+            if l == "merge" and i < len(a):
+                mm = re.search(r"order=(\S+)", a[i])
+                ml.append("merge order=" + (mm.group(1) if mm else "-"))
+            else:
+                ml.append(l)
+        b = self.m.ask_many(ml[:max(len(a), 0)] if self.died else ml)
+        self.lines += lines
+        self.impl += a
+        self.model += b
+        return a, b
+
+    def close(self):
+        self.h.close()
+        self.m.close()
+        shutil.rmtree(self.root, ignore_errors=True)
+
+
 def calls_of(ans):
     """logical calls listed after `| T` in an answer line"""
     if " | T" not in ans:
@@ -296,12 +333,8 @@ def spec_states(h, lines, tags, ranges, cut_i, cut_b):
     return [a]
 
 
-def check_cuts(rep, tier, rng, prop, h, meta, lines, tags, impl, model, root, loss=False, budget=60, compare_model=True):
-    """enumerate cuts of one traced workload; returns list of problems"""
-    ranges, ncalls = op_call_ranges(lines, impl)
-    calls = []
-    for a in impl:
-        calls += calls_of(a)
+def enumerate_cuts(rng, calls, budget):
+    ncalls = len(calls)
     cuts = []
     for i in range(ncalls + 1):
         cuts.append((i, 0))
@@ -312,12 +345,22 @@ def check_cuts(rep, tier, rng, prop, h, meta, lines, tags, impl, model, root, lo
                     cuts.append((i, b))
     if len(cuts) > budget:
         keep = set(rng.sample(range(len(cuts)), budget))
-        # always keep the cuts around unlinks and creates (merge / rollover windows)
         for j, (i, b) in enumerate(cuts):
             if b == 0 and i < ncalls and calls[i][0] in "uc":
-                keep.add(j)
+                keep.add(j)        # always keep the cuts around creates and unlinks (merge / rollover windows)
         cuts = [c for j, c in enumerate(cuts) if j in keep]
-    # synced lengths for power loss
+    return cuts
+
+
+def check_cuts(rep, tier, rng, prop, h, meta, lines, tags, pair, loss=False, budget=60, compare_model=True):
+    """enumerate cuts of the workload the live pair has JUST executed (same process, same merge iteration
+    order: call indices refer to that very execution); returns list of problems"""
+    impl = pair.impl[-len(lines):]
+    ranges, ncalls = op_call_ranges(lines, impl)
+    calls = []
+    for a in impl:
+        calls += calls_of(a)
+    cuts = enumerate_cuts(rng, calls, budget)
     q = []
     for (i, b) in cuts:
         if not loss:
@@ -339,28 +382,25 @@ def check_cuts(rep, tier, rng, prop, h, meta, lines, tags, impl, model, root, lo
             if b > 0:
                 n = calls[i].split(":")[1]
                 size[n] = size.get(n, 0) + b
-            vecs = []
-            # every file at its synced length; every file full; a random mix with middle points
-            vecs.append({f: synced.get(f, 0) for f in exists})
+            vecs = [{f: synced.get(f, 0) for f in exists}]
             for _ in range(2):
                 vecs.append({f: rng.choice([synced.get(f, 0), size.get(f, 0), rng.randint(synced.get(f, 0), size.get(f, 0))]) for f in exists})
             for v in vecs:
                 tr = ",".join(f"{f}={n}" for f, n in sorted(v.items()) if n < size.get(f, 0)) or "-"
                 q.append(((i, b, tr), f"loss {i} {b} {tr}"))
-    qlines = [x[1] for x in q]
-    d3lines = [f"d3cut {x[0][0]} {x[0][1]}" for x in q]
-    script = lines + [l for pair in zip(qlines, d3lines) for l in pair]
-    i2, m2, d2 = run_both_traced(script, root)
-    rep.cov["evaluations"] += len(qlines)
+    qlines = [l for x in q for l in (x[1], f"d3cut {x[0][0]} {x[0][1]}")]
+    i2, m2 = pair.ask_many(qlines)
+    rep.cov["evaluations"] += len(q)
     problems = []
-    if d2 is not None:
-        problems.append(("oracle", f"harness died ({d2.why}) while opening a crash image", script, len(i2), "opened", "process death", None))
+    script = lines + qlines
+    if pair.died is not None:
+        problems.append(("oracle", f"harness died ({pair.died.why}) while opening a crash image", script, len(lines) + len(i2), "opened", "process death", None))
         return problems
     base = len(lines)
     for j, ((i, b, tr), ql) in enumerate(q):
-        a = i2[base + 2 * j]
-        m = m2[base + 2 * j]
-        d3 = m2[base + 2 * j + 1].split(" ")
+        a = i2[2 * j]
+        m = m2[2 * j]
+        d3 = m2[2 * j + 1].split(" ")
         d3keys = set(d3[2].split(",")) if len(d3) > 2 and int(d3[1]) > 0 else set()
         rep.count("cuts")
         if b > 0:
@@ -379,7 +419,6 @@ def check_cuts(rep, tier, rng, prop, h, meta, lines, tags, impl, model, root, lo
                 break
             diffs.append(d)
         if not ok:
-            # D3 (known finding): only deleted keys, only keys whose tombstone has been merged away
             d = min(diffs, key=len)
             st = allowed[diffs.index(d)]
             if all(st.get(k) is None and hx(k) in d3keys for k in d):
@@ -391,50 +430,70 @@ def check_cuts(rep, tier, rng, prop, h, meta, lines, tags, impl, model, root, lo
                 continue
         if a != m and compare_model:
             problems.append(("correspondence", "the real code and the model recover different contents from the same crash image", script, base + 2 * j, m, a, None))
-    if loss or any(p[6] is None for p in problems):
-        return problems
-    # lives after the crash: recover the image in place, keep writing, restart again (a torn tail or a
-    # half-finished merge must stay isolated from what later lives write)
-    pri = [c for c in cuts if c[1] > 0] + [c for c in cuts if c[1] == 0 and c[0] < ncalls and calls[c[0]][0] in "uc"]
-    rng.shuffle(pri)
-    for (i, b) in pri[:(3 if tier == "quick" else 10)]:
+    return problems
+
+
+def life_after_crash(rep, tier, rng, prop, h, meta, lines, tags, root, compare_model=True):
+    """a fresh execution of the workload, then: recover a crash image IN PLACE, keep writing, restart, merge,
+    restart (a torn tail or a half-finished merge must stay isolated from what later lives write)"""
+    pair = Pair(root)
+    problems = []
+    try:
+        a0, b0 = pair.ask_many(lines)
+        if pair.died is not None:
+            return [("oracle", f"harness died ({pair.died.why})", lines, len(a0), "ok", "process death", None)]
+        calls = []
+        for a in a0:
+            calls += calls_of(a)
+        ncalls = len(calls)
+        cuts = enumerate_cuts(rng, calls, 10**6)
+        pri = [c for c in cuts if c[1] > 0] + [c for c in cuts if c[1] == 0 and c[0] < ncalls and calls[c[0]][0] in "uc"]
+        if not pri:
+            return []
+        (i, b) = rng.choice(pri)
         ks = meta["keys"]
         cont = []
         for n, k in enumerate(ks[:3]):
             cont.append(f"put {hx(k)} c{n}" if n != 1 else f"del {hx(k)}")
         gets = ["get " + hx(k) for k in ks]
-        script2 = lines + [f"restore {i} {b}", "open"] + gets + cont + gets + ["reopen"] + gets + ["merge", "reopen"] + gets
-        a2, m2b, d2b = run_both_traced(script2, root)
-        rep.cov["evaluations"] += len(script2) - len(lines)
+        tail = [f"restore {i} {b}", "open"] + gets + cont + gets + ["reopen"] + gets + ["merge", "hazard", "reopen"] + gets
+        a2, m2b = pair.ask_many(tail)
+        script2 = lines + tail
+        rep.cov["evaluations"] += len(tail)
         rep.count("lives_after_crash")
-        if d2b is not None:
-            problems.append(("oracle", f"harness died ({d2b.why}) in a life after the crash", script2, len(a2), "ok", "process death", None))
-            continue
-        o = len(lines) + 2
+        if pair.died is not None:
+            return [("oracle", f"harness died ({pair.died.why}) in a life after the crash", script2, len(lines) + len(a2), "ok", "process death", None)]
+        o = 2
         basevals = {hx(k): a2[o + n] for n, k in enumerate(ks)}
         exp = dict(basevals)
         for n, k in enumerate(ks[:3]):
             exp[hx(k)] = f"c{n}" if n != 1 else "nil"
+        hz = m2b[tail.index("hazard")].split(" ")
+        hazard = set(hz[2].split(",")) if len(hz) > 2 and int(hz[1]) > 0 else set()
         bad = None
-        for li in range(len(lines), len(script2)):
+        for li in range(len(tail)):
             if strip_trace(a2[li]).startswith(("panic", "err", "restore-error", "open-panic")):
-                bad = (li, "ok", a2[li])
+                bad = (li, "ok", a2[li], None)
                 break
         if not bad:
-            for blk, start in (("after the writes", o + len(ks) + len(cont)), ("after the next restart", o + 2 * len(ks) + len(cont) + 1), ("after a merge and another restart", o + 3 * len(ks) + len(cont) + 3)):
+            for blk, start in (("after the writes", o + len(ks) + len(cont)), ("after the next restart", o + 2 * len(ks) + len(cont) + 1), ("after a merge and another restart", o + 3 * len(ks) + len(cont) + 4)):
                 for n, k in enumerate(ks):
                     if a2[start + n] != exp[hx(k)]:
-                        # D3 may surface here as well (merge in the continuation): known if the key is expected absent
-                        sig = D3_SIG if (exp[hx(k)] == "nil" and "merge" in blk) else None
+                        sig = D3_SIG if (exp[hx(k)] == "nil" and "merge" in blk and hx(k) in hazard) else None
                         bad = (start + n, f"{hx(k)}={exp[hx(k)]} {blk}", f"{hx(k)}={a2[start + n]}", sig)
                         break
                 if bad:
                     break
         if bad:
-            problems.append(("oracle", "a later life does not keep what was written after recovering from the crash (the crash left-over was not isolated)", script2, bad[0], bad[1], bad[2], bad[3] if len(bad) > 3 else None))
-        elif compare_model and [x for x in a2] != [x for x in m2b]:
-            dd = next(t for t in range(len(a2)) if a2[t] != m2b[t])
-            problems.append(("correspondence", "real code and model diverge in a life after the crash", script2, dd, m2b[dd], a2[dd], None))
+            problems.append(("oracle", "a later life does not keep what was written after recovering from the crash (the crash left-over was not isolated)"
+                             if bad[3] is None else "known: deleted key resurrected by merge + restart/crash", script2, len(lines) + bad[0], bad[1], bad[2], bad[3]))
+        elif compare_model:
+            for t in range(len(tail)):
+                if tail[t] != "hazard" and a2[t] != m2b[t]:
+                    problems.append(("correspondence", "real code and model diverge in a life after the crash", script2, len(lines) + t, m2b[t], a2[t], None))
+                    break
+    finally:
+        pair.close()
     return problems
 
 
@@ -443,7 +502,7 @@ def run_cut_property(rep, tier, seed, prop, loss):
     n = (40 if tier == "quick" else 400)
     root = os.path.join(WORK, "run-" + prop)
     nv = 0
-    known = False
+    known = set()
     corpus = []
     if prop == "C03":
         corpus = [(Hist("c0", "cfg mfs=100 sync=none frag=1/1 dead=1099511627776 small=60 cache=256 pool=1",
@@ -462,36 +521,44 @@ def run_cut_property(rep, tier, seed, prop, loss):
         else:
             h, meta = gen_workload(rng, idx, tier, sync="always" if loss else rng.choice(["none", "always"]))
         lines, tags = trace_script(h, meta)
-        impl, model, died = run_both_traced(lines, root)
-        rep.cov["evaluations"] += len(lines)
-        rep.count("workloads")
-        rep.count("merges", sum(1 for o in h.ops if o[0] == "merge"))
-        if died is not None or impl != model:
-            nv += 1
-            if nv <= 3:
-                d = next((i for i in range(min(len(impl), len(model))) if impl[i] != model[i]), len(impl))
-                rep.violation("correspondence" if died is None else "oracle",
-                              dict(what="the file-system call trace of the workload differs from the model's (before any crash)" if died is None else f"harness died ({died.why})",
-                                   script=lines, failing_line=d, expected=model[d][:800] if d < len(model) else None, observed=impl[d][:800] if d < len(impl) else None))
-            if died is not None or nv > 3:
-                continue
-            # the trace correspondence is broken: search for a failing input with the direct oracle alone
-            probs = [p for p in check_cuts(rep, tier, rng, prop, h, meta, lines, tags, impl, model, root, loss=loss, budget=40, compare_model=False) if p[0] == "oracle" and p[6] is None]
-            for p in probs[:1]:
-                rep.violation(p[0], dict(what=p[1], script=p[2][:len(lines)] + p[2][len(lines):][-16:], failing_request=p[2][p[3]] if p[3] < len(p[2]) else None, expected=p[4][:1200], observed=p[5][:1200]))
-            continue
-        rep.cov["traces_validated_against_impl"] += 1
-        rep.nontrivial([prop, h.cfg, lines[4:]])
-        probs = check_cuts(rep, tier, rng, prop, h, meta, lines, tags, impl, model, root, loss=loss, budget=60 if tier == "quick" else 200)
+        pair = Pair(root)
+        try:
+            impl, model = pair.ask_many(lines)
+            died = pair.died
+            rep.cov["evaluations"] += len(lines)
+            rep.count("workloads")
+            rep.count("merges", sum(1 for o in h.ops if o[0] == "merge"))
+            broken = died is not None or impl != model
+            if broken:
+                nv += 1
+                if nv <= 3:
+                    d = next((i for i in range(min(len(impl), len(model))) if impl[i] != model[i]), len(impl))
+                    rep.violation("correspondence" if died is None else "oracle",
+                                  dict(what="the file-system call trace of the workload differs from the model's (before any crash)" if died is None else f"harness died ({died.why})",
+                                       script=lines, failing_line=d, expected=model[d][:800] if d < len(model) else None, observed=impl[d][:800] if d < len(impl) else None))
+                if died is not None or nv > 3:
+                    continue
+            else:
+                rep.cov["traces_validated_against_impl"] += 1
+                rep.nontrivial([prop, h.cfg, lines[4:]])
+            # when the trace correspondence is already broken, keep searching for a failing input with the direct oracle alone
+            probs = check_cuts(rep, tier, rng, prop, h, meta, lines, tags, pair, loss=loss, budget=(40 if broken else (60 if tier == "quick" else 200)), compare_model=not broken)
+        finally:
+            pair.close()
+        if not loss and not any(p[6] is None for p in probs):
+            for _ in range(2 if tier == "quick" else 6):
+                probs += life_after_crash(rep, tier, rng, prop, h, meta, lines, tags, root, compare_model=not broken)
+        if broken:
+            probs = [p for p in probs if p[0] == "oracle" and p[6] is None][:1]
         for p in probs:
             if p[6] is not None:
-                if not known:
-                    known = True
-                    rep.violation("oracle", dict(what=p[1], script=p[2][:len(lines)] + [p[2][p[3]]], failing_request=p[2][p[3]], expected=p[4][:600], observed=p[5][:600]), signature=p[6])
+                if p[6] not in known:
+                    known.add(p[6])
+                    rep.violation("oracle", dict(what=p[1], script=p[2][:len(lines)] + p[2][len(lines):][-24:], failing_request=p[2][p[3]] if p[3] < len(p[2]) else None, expected=p[4][:600], observed=p[5][:600]), signature=p[6])
             else:
                 nv += 1
                 if nv <= 3:
-                    rep.violation(p[0], dict(what=p[1], script=p[2][:len(lines)] + [p[2][p[3]]], failing_request=p[2][p[3]], expected=p[4][:1200], observed=p[5][:1200]))
+                    rep.violation(p[0], dict(what=p[1], script=p[2][:len(lines)] + p[2][len(lines):][-24:], failing_request=p[2][p[3]] if p[3] < len(p[2]) else None, expected=p[4][:1200], observed=p[5][:1200]))
         if idx < 2:
             rep.sample({"workload": lines, "trace": [x[:160] for x in impl]})
 
